@@ -77,6 +77,28 @@ pub fn slices() -> Vec<Slice> {
         in_func: false,
     });
 
+    // arith-typed: variables of every non-integer type against the small integer literals (identities
+    // such as x + 0 or x * 1 included), at top level and inside a function
+    let typed_atoms = vec![id("a"), id("b"), id("c"), id("d"), int(0), int(1), int(2)];
+    let mut typed_ops = ARITH_OPS.to_vec();
+    typed_ops.extend(CMP_OPS.iter().cloned());
+    v.push(Slice {
+        name: "arith-typed",
+        prelude: vec![let_("a", flt(1.5)), let_("b", string("s")), let_("c", boolean(true)), let_("d", array(vec![int(1)]))],
+        wrap: None,
+        grammar: Grammar { atoms: typed_atoms.clone(), infix: typed_ops.clone(), prefix: vec![Operator::Subtract], max_expr: 5, max_stmts: 1, ..Default::default() },
+        bound: (3, 5),
+        in_func: false,
+    });
+    v.push(Slice {
+        name: "arith-typed-local",
+        prelude: vec![],
+        wrap: Some((vec!["a", "b", "c", "d"], vec![flt(1.5), string("s"), boolean(true), array(vec![int(1)])])),
+        grammar: Grammar { atoms: typed_atoms, infix: typed_ops, prefix: vec![Operator::Subtract], max_expr: 5, max_stmts: 1, ..Default::default() },
+        bound: (3, 5),
+        in_func: true,
+    });
+
     // ctrl: declarations, assignment, blocks, if/else, counter loops with stop/volgende, prints
     let ctrl = Grammar {
         atoms: vec![id("a"), id("b"), int(1), boolean(true), boolean(false)],
